@@ -190,4 +190,24 @@ theorem regionAlign_so (M : Mat) (gap : Gap) (thr : Int) (x y : Seq) (mts : Opti
   | lin g => exact regionLin_so ..
   | aff go ge => exact regionAff_so ..
 
+/-! ## the incrementally built table is C08's table -/
+
+theorem rowsGo_eq {α : Type} (R : Rec α) (m : Nat) : ∀ (k i : Nat),
+    rowsGo R i k (R.row m i) = (List.range' i (k + 1)).map (R.row m) := by
+  intro k
+  induction k with
+  | zero => intro i; simp [rowsGo]
+  | succ k ih =>
+    intro i
+    have h : R.nextRow i (R.row m i) = R.row m (i + 1) := rfl
+    rw [rowsGo, h, ih (i + 1)]
+    simp [List.range'_succ]
+
+theorem tableFast_eq {α : Type} (R : Rec α) (m n : Nat) : tableFast R m n = R.table m n := by
+  unfold tableFast Rec.table
+  rw [rowsGo_eq, List.range_eq_range']
+
+theorem optTFast_eq (mode : Mode) (gap : Gap) (M : Mat) (a b : Seq) : optTFast mode gap M a b = optT mode gap M a b := by
+  cases mode <;> cases gap <;> simp [optTFast, optT, optLinT, optAffT, fillLin, fillAff, tableFast_eq]
+
 end BiotiteModel.C09
